@@ -124,4 +124,29 @@ def run(ctx):
     res.pop("_tc", None)
     res["nontrivial"] = len(nontriv)
     res["samples"] = [{"case": cases[0].to_text().split("\n")[:20]}]
-    return {"streams": [res]}
+    return {"streams": [res, mutating_stream(tier, rnd, model_ok, graphs, cfgs)]}
+
+
+def mutating_stream(tier, rnd, model_ok, graphs, cfgs):
+    """the path the base filesystem actually receives from mutating operations whose names run
+    through symlinked parents: primitive traces (L2) compared with the model"""
+    import bfsprops
+    cases = []
+    sample = graphs if tier != "quick" else rnd.sample(graphs, min(len(graphs), 40))
+    names = [b"/l1/n", b"/x/l2/n", b"/l1/y/n", b"/l1/f", b"/x/l2/f", b"/z/../l1/n"]
+    for gi, (ta, tb) in enumerate(sample):
+        cfg = cfgs[gi % len(cfgs)]
+        if t2.view_prefix(cfg) and ta.startswith(b".."):
+            cfg = cfgs[0]
+        ops = [("dump",)]
+        for n in rnd.sample(names, 3):
+            ops.append(rnd.choice([
+                ("openwrite", n, rnd.choice([0x40, 0x240, 0xC0, 0x41, 0x242]), "644", "Bw"),
+                ("create", n, "Bc"), ("mkdir", n, "755"), ("mkdirall", n + b"/deep", "755"),
+                ("chmod", n, "600"), ("lchown", n, 1000, 1000), ("symlink", b"tgt", n), ("remove", n),
+                ("rename", n, n + b"2")]))
+        ops += [("dump",), ("rollback",)]
+        cases.append(t2.Case("c16m-%d" % gi, cfg, graph_inits(cfg, ta, tb), ops))
+    return worldrun.run_stream("C16", "mutating_paths", cases, model_ok, level=2, oracle=None, do_shrink=False,
+                               desc="mutating operations (OpenFile with every kind of flag incl. read-only access with O_CREATE/O_TRUNC, Create, Mkdir, MkdirAll, Chmod, Lchown, Symlink, Remove, Rename) on names that run through the symlinks of the two-link graphs: results, trees and the exact primitive calls - i.e. the path arguments the base and backup filesystems receive - compared with the model (L2)")
+
